@@ -40,6 +40,7 @@ class PathEnd(Exception):
 
 
 TWO64 = str(2 ** 64)
+_SYMS = re.compile(r"\|[^|]+\|")
 
 # ------------------------------------------------------------------------------------------------
 # front end
@@ -170,6 +171,10 @@ class Types:
             return CT("func")
         raise COutOfSubset(f"C type {q!r} / {d!r}")
 
+    def is_scalar_union(self, t: CT) -> bool:
+        r = self.records[t.name]
+        return bool(r["union"]) and all(ft.kind in ("int", "float") for _, ft in r["fields"])
+
     def sizeof(self, t: CT) -> int:
         if t.kind == "record":
             r = self.records[t.name]
@@ -217,6 +222,8 @@ class PVal:
     ct: CT
     region: typing.Optional[str]
     off: str
+    path: typing.Tuple[str, ...] = ()  # for pointers to (sub)structures: field path below the root object
+    is_struct: bool = False
 
 
 @dataclasses.dataclass
@@ -240,6 +247,8 @@ def lit_of(t: str) -> typing.Optional[int]:
         if m:
             return int(m.group(1))
         return None
+    except Exception:
+        return None
 
 
 # memories -----------------------------------------------------------------------------------------
@@ -251,11 +260,11 @@ class Mem:
 
     def bit(self, pos: str) -> str:
         """bit at absolute bit position pos (Int term) as (_ BitVec 1)"""
-        byte = self.read(f"(div {pos} 8)")
         k = lit_of(pos)
         if k is not None:
             b = k % 8
-            return f"((_ extract {b} {b}) {byte})"
+            return f"((_ extract {b} {b}) {self.read(str(k // 8))})"
+        byte = self.read(f"(div {pos} 8)")
         return f"((_ extract 0 0) (bvlshr {byte} ((_ int2bv 8) (mod {pos} 8))))"
 
 
@@ -273,6 +282,26 @@ class ConstMem(Mem):
 
     def read(self, idx: str) -> str:
         return self.byte
+
+
+class IntCellMem(Mem):
+    """an 8-byte object holding an index-domain integer (e.g. a size_t variable whose address is taken)"""
+
+    def __init__(self, term: str):
+        self.term = term
+
+    def read(self, idx: str) -> str:
+        k = lit_of(idx)
+        v = lit_of(self.term)
+        if k is not None and v is not None:
+            return bvlit((v >> (8 * k)) & 0xFF, 8) if 0 <= k < 8 else "#x00"
+        bv = f"((_ int2bv 64) {self.term})"
+        if k is not None:
+            return f"((_ extract {8 * k + 7} {8 * k}) {bv})"
+        t = "#x00"
+        for i in range(7, -1, -1):
+            t = Ite(Eq(idx, str(i)), f"((_ extract {8 * i + 7} {8 * i}) {bv})", t)
+        return t
 
 
 class StoreMem(Mem):
@@ -310,19 +339,42 @@ class CopyBitsMem(Mem):
 
     def __init__(self, parent: Mem, doff: str, ln: str, src: Mem, soff: str):
         self.parent, self.doff, self.ln, self.src, self.soff = parent, doff, ln, src, soff
+        self._cache: typing.Dict[str, str] = {}
 
     def read(self, idx: str) -> str:
+        r = self._cache.get(idx)
+        if r is None:
+            r = self._read(idx)
+            self._cache[idx] = r
+        return r
+
+    def _read(self, idx: str) -> str:
+        k, d, n = lit_of(idx), lit_of(self.doff), lit_of(self.ln)
+        if k is not None and d is not None and n is not None:
+            # everything literal: decide per bit here; a byte the copy does not touch is the parent's byte itself
+            inside = [d <= 8 * k + b < d + n for b in range(8)]
+            if not any(inside):
+                return self.parent.read(idx)
+            so = lit_of(self.soff)
+            pbyte = self.parent.read(idx) if not all(inside) else None
+            bits = []
+            for b in range(7, -1, -1):
+                if inside[b]:
+                    sp = str(so + 8 * k + b - d) if so is not None else app("+", self.soff, str(8 * k + b - d))
+                    bits.append(self.src.bit(sp))
+                else:
+                    bits.append(f"((_ extract {b} {b}) vk_pb)")
+            body = "(concat " + " ".join(bits) + ")"
+            return body if pbyte is None else f"(let ((vk_pb {pbyte})) {body})"
         bits = []
         for b in range(7, -1, -1):
             p = app("+", app("*", "8", idx), str(b))
-            k = lit_of(idx)
             if k is not None:
                 p = str(8 * k + b)
             inr = And(app("<=", self.doff, p), app("<", p, app("+", self.doff, self.ln)))
             sp = app("+", self.soff, app("-", p, self.doff))
-            pb = f"((_ extract {b} {b}) {self.parent.read(idx)})"
-            bits.append(Ite(inr, self.src.bit(sp), pb))
-        return "(concat " + " ".join(bits) + ")"
+            bits.append(Ite(inr, self.src.bit(sp), f"((_ extract {b} {b}) vk_pb)"))
+        return f"(let ((vk_pb {self.parent.read(idx)})) (concat " + " ".join(bits) + "))"
 
 
 class HavocMem(Mem):
@@ -370,6 +422,11 @@ class CContract:
     note: str = ""
     timeout: int = 60
     theory: str = "arith"
+    null_params: typing.Set[str] = dataclasses.field(default_factory=set)
+    scalar_ptr_params: typing.Set[str] = dataclasses.field(default_factory=set)
+    # setup(ex, args): run before `requires` (e.g. fix the shape of the object: array counts, union tags)
+    setup: typing.Optional[typing.Callable[["Exec", typing.Dict[str, typing.Any]], None]] = None
+    variant_label: str = ""
 
 
 class CallCx:
@@ -522,6 +579,13 @@ class Exec:
         self.entry_mems: typing.Dict[str, Mem] = {}
         self.params: typing.Dict[str, typing.Any] = {}
         self.cut = 0
+        self.addr_active = False
+        self.addr_facts: typing.List[str] = []
+        self.struct_roots: typing.Dict[str, bool] = {}
+        self.param_roots: typing.Set[str] = set()
+        self.shape: typing.Dict[typing.Any, typing.Any] = {}
+        self.region_alias: typing.Dict[str, str] = {}
+        self.leaf_info: typing.Dict[str, typing.Tuple[str, typing.Tuple[str, ...], CT]] = {}
 
     # -- symbols --------------------------------------------------------------------------------------
     def fresh(self, sort: str, hint: str, model: bool = False) -> str:
@@ -566,11 +630,29 @@ class Exec:
         return d == 0
 
     def _aux(self, extra: str) -> str:
-        key = hash(("\x00".join(self.pc), extra))
+        """Auxiliary query on the cone of influence of `extra` only: dropping unrelated hypotheses is sound for both
+        uses (an unsat slice means the whole is unsat; a sat slice merely keeps a path / a heavier encoding)."""
+        syms = set(_SYMS.findall(extra))
+        sel: typing.List[str] = []
+        rest = [(t, set(_SYMS.findall(t))) for t in self.pc]
+        changed = True
+        while changed:
+            changed = False
+            keep = []
+            for t, ts in rest:
+                if ts & syms:
+                    sel.append(t)
+                    syms |= ts
+                    changed = True
+                else:
+                    keep.append((t, ts))
+            rest = keep
+        key = hash(("\x00".join(sorted(sel)), extra))
         r = self.xp.aux_cache.get(key)
         if r is None:
             self.xp.aux += 1
-            r = self.e.session.check(self.decls, self.pc + [extra])
+            decls = [d for d in self.decls if not d.startswith("(declare-const") or d.split(" ")[1] in syms]
+            r = self.e.session.check(decls, sel + [extra])
             self.xp.aux_cache[key] = r
         return r
 
@@ -682,7 +764,7 @@ class Exec:
                 return Val(to, "I", self.to_int(v).t if not v.ct.signed else self._signed_to_index(v))
             return Val(to, "B", self.bv_resize(v, to.width).t)
         if isinstance(v, PVal) and to.kind == "ptr":
-            return PVal(to, v.region, v.off)
+            return PVal(to if not v.is_struct else v.ct, v.region, v.off, v.path, v.is_struct)
         raise COutOfSubset(f"conversion {type(v).__name__} -> {to}")
 
     def _signed_to_index(self, v: Val) -> str:
@@ -727,12 +809,59 @@ class Exec:
             mem = BaseMem(sym)
         base = self.fresh("Int", f"addr.{name}")
         r = Region(rid, mem, length, writable, base)
-        # distinct objects do not overlap; addresses are positive and do not wrap
-        self.assume(And(app("<", "0", base), app("<", app("+", base, length), TWO64)))
+        # distinct objects do not overlap; addresses are positive and do not wrap.  These facts only matter for
+        # relational pointer comparisons / pointer-to-integer casts: they join the path condition on first use.
+        facts = [And(app("<", "0", base), app("<", app("+", base, length), TWO64))]
         for o in self.regions.values():
-            self.assume(Or(app("<=", app("+", base, length), o.base), app("<=", app("+", o.base, o.length), base)))  # type: ignore
+            facts.append(Or(app("<=", app("+", base, length), o.base), app("<=", app("+", o.base, o.length), base)))  # type: ignore
+        if self.addr_active:
+            for f in facts:
+                self.assume(f)
+        else:
+            self.addr_facts.extend(facts)
         self.regions[rid] = r
         return r
+
+    def need_addresses(self) -> None:
+        if not self.addr_active:
+            self.addr_active = True
+            for f in self.addr_facts:
+                self.assume(f)
+            self.addr_facts = []
+
+    def new_struct_root(self, name: str, writable: bool = True) -> str:
+        self.counter += 1
+        rid = f"{name}#{self.counter}"
+        self.struct_roots[rid] = writable
+        return rid
+
+    def subregion(self, root: str, path: typing.Tuple[str, ...], ct: CT) -> Region:
+        """Field-sensitive object model: every scalar/array leaf of a structure is its own byte region, created on
+        first use with unconstrained content (= any object contents).  Members of a union are modelled as disjoint
+        leaves (assumption: generated code only touches the member selected by the tag)."""
+        key = root + "/" + ".".join(path)
+        if key in self.region_alias:
+            return self.regions[self.region_alias[key]]
+        r = self.new_region(key.replace("#", "_"), str(self.e.types.sizeof(ct)), writable=self.struct_roots.get(root, True))
+        self.region_alias[key] = r.name
+        if root in self.param_roots:
+            self.entry_mems.setdefault(r.name, r.mem)
+        self.leaf_info[r.name] = (root, path, ct)
+        return r
+
+    def member_lvalue(self, base: typing.Any, name: str) -> typing.Any:
+        _, root, path, rct = base
+        rec = self.e.types.records[rct.name]
+        for fname, ft in rec["fields"]:
+            if fname == name:
+                np = path + (name,)
+                if ft.kind == "record":
+                    return ("struct", root, np, ft)
+                if ft.kind == "array" and ft.elem is not None and ft.elem.kind == "record":
+                    return ("structarr", root, np, ft)
+                r = self.subregion(root, np, ft)
+                return ("mem", PVal(CT("ptr", elem=ft), r.name, "0"), ft)
+        raise COutOfSubset(f"no field {name} in {rct.name}")
 
     def check_access(self, p: PVal, nbytes: str, what: str, write: bool) -> Region:
         if p.region is None:
@@ -747,8 +876,14 @@ class Exec:
     def load(self, p: PVal, ct: CT) -> typing.Any:
         n = self.e.types.sizeof(ct) if ct.kind != "int" else ct.size
         r = self.check_access(p, str(n), "load", False)
+        if isinstance(r.mem, IntCellMem) and ct.kind == "int" and ct.width == 64 and not ct.signed and p.off == "0":
+            return Val(ct, "I", r.mem.term)
         bytes_ = [r.mem.read(app("+", p.off, str(i)) if p.off != "0" or i else "0") if False else r.mem.read(_addi(p.off, i)) for i in range(n)]
-        bits = bytes_[0] if n == 1 else "(concat " + " ".join(reversed(bytes_)) + ")"
+        lits = [lit_of(b) if b.startswith("(_ bv") or b.startswith("#x") else None for b in bytes_]
+        if all(x is not None for x in lits):
+            bits = bvlit(sum(v << (8 * i) for i, v in enumerate(lits)), 8 * n)  # type: ignore
+        else:
+            bits = bytes_[0] if n == 1 else "(concat " + " ".join(reversed(bytes_)) + ")"
         if ct.kind == "int":
             return Val(ct, "B", bits)
         if ct.kind == "float":
@@ -758,6 +893,11 @@ class Exec:
     def store(self, p: PVal, ct: CT, v: typing.Any) -> None:
         n = ct.size
         r = self.check_access(p, str(n), "store", True)
+        if ct.kind == "int" and ct.width == 64 and not ct.signed and p.off == "0" and isinstance(v, Val) and lit_of(r.length) == 8:
+            vv = self.convert(v, ct)
+            if vv.rep == "I":
+                r.mem = IntCellMem(vv.t)
+                return
         if ct.kind == "int":
             b = self.to_bv(self.convert(v, ct) if isinstance(v, Val) else v, ct.width)
             bits = b.t
@@ -837,6 +977,12 @@ class Exec:
             self.vars[vid] = ("region", r.name, ct)
             if init is not None:
                 self.init_array(r, ct, init)
+            return
+        if ct.kind == "record" and not self.e.types.is_scalar_union(ct):
+            root = self.new_struct_root(d["name"])
+            self.vars[vid] = ("structroot", root, ct)
+            if init is not None:
+                raise COutOfSubset("initialiser of a local structure")
             return
         if ct.kind == "record":
             w = 8 * self.e.types.sizeof(ct)
@@ -919,6 +1065,40 @@ class Exec:
     def s_IfStmt(self, n: dict) -> None:
         inner = n["inner"]
         c = self.nonzero(self.eval(inner[0]))
+        if c not in ("true", "false") and _simple_block(inner[1]) and (len(inner) < 3 or _simple_block(inner[2])) and _pure_cond(inner[0]):
+            # both arms only assign register scalars: execute both under their guard and merge (no path split).
+            # This is what keeps a sequence of independent saturation tests linear instead of exponential.
+            before = dict(self.vars)
+            at = len(self.pc)
+            self.pc.append(c)
+            self.exec(inner[1])
+            del self.pc[at]  # only the guard goes; definitions of fresh symbols introduced in the arm stay
+            then_vars = self.vars
+            self.vars = dict(before)
+            if len(inner) > 2:
+                at = len(self.pc)
+                self.pc.append(Not(c))
+                self.exec(inner[2])
+                del self.pc[at]
+            else_vars = self.vars
+            merged = dict(before)
+            for vid in set(then_vars) | set(else_vars):
+                a, b = then_vars.get(vid), else_vars.get(vid)
+                if a is b or a == b:
+                    merged[vid] = a
+                    continue
+                if isinstance(a, Val) and isinstance(b, Val):
+                    if a.rep == b.rep and a.ct.width == b.ct.width:
+                        merged[vid] = Val(a.ct, a.rep, Ite(c, a.t, b.t))
+                    else:
+                        x, y = self.to_bv(a, a.ct.width), self.to_bv(b, a.ct.width)
+                        merged[vid] = Val(a.ct, "B", Ite(c, x.t, y.t))
+                elif isinstance(a, FVal) and isinstance(b, FVal):
+                    merged[vid] = FVal(a.ct, Ite(c, a.bits, b.bits))
+                else:
+                    raise COutOfSubset("merge of non-scalar variables")
+            self.vars = merged
+            return
         if self.branch(c):
             self.exec(inner[1])
         elif len(inner) > 2:
@@ -1030,8 +1210,42 @@ class Exec:
         self.prove(Eq(r.mem.read(j), spec.read(j)), kind, label)
         del self.pc[saved:]
 
+    MAX_UNROLL = 72
+
     def s_ForStmt(self, n: dict) -> None:
-        raise COutOfSubset("for statement (handled by the per-type front end)")
+        """Generated array loops run to a bound that is a constant of the program text (the capacity): they are fully
+        unrolled; the unrolling stops when the loop condition is infeasible (checked), never by a fixed cut-off."""
+        init, _condvar, cond, inc, body = (n["inner"] + [{}] * 5)[:5]
+        if init:
+            self.exec(init)
+        for k in range(self.MAX_UNROLL + 1):
+            if cond:
+                c = self.nonzero(self.eval(cond))
+                if not self.branch(c):
+                    return
+            if k == self.MAX_UNROLL:
+                raise COutOfSubset("loop does not terminate within the unrolling limit (capacity too large for this engine)")
+            try:
+                self.exec(body)
+            except _Break:
+                return
+            except _Continue:
+                pass
+            if inc:
+                self.eval(inc)
+
+    def string_literal(self, n: dict) -> PVal:
+        raw = n.get("value", '""')
+        try:
+            text = json.loads(raw) if raw.startswith('"') else raw
+        except Exception:
+            text = ""
+        data = text.encode("latin-1", "replace") + b"\x00"
+        mem: Mem = ConstMem("#x00")
+        for i, b in enumerate(data):
+            mem = StoreMem(mem, str(i), bvlit(b, 8))
+        r = self.new_region("strlit", str(len(data)), mem, writable=False)
+        return PVal(CT("ptr", elem=CT("int", 8, True)), r.name, "0")
 
     # -- expressions ----------------------------------------------------------------------------------
     def eval(self, n: dict) -> typing.Any:
@@ -1082,12 +1296,23 @@ class Exec:
             v = self.vars.get(vid)
             if isinstance(v, tuple) and v[0] == "region":
                 return ("mem", PVal(CT("ptr", elem=v[2]), v[1], "0"), v[2])
+            if isinstance(v, tuple) and v[0] == "structroot":
+                return ("struct", v[1], (), v[2])
             return ("var", vid)
         if k == "ArraySubscriptExpr":
             base = self.eval(n["inner"][0])
             idx = self.to_int(self.eval(n["inner"][1]))
             if not isinstance(base, PVal):
                 raise COutOfSubset("subscript base")
+            if base.is_struct:
+                # element of an array of structures: the index is made literal (case split) so that the element is a path
+                kk = lit_of(idx.t)
+                if kk is None:
+                    kk = self.small_split(idx.t)
+                if kk is None:
+                    raise COutOfSubset("symbolic index into an array of structures")
+                cap = getattr(base, "count", None)
+                return ("struct", base.region, base.path + (str(kk),), base.ct.elem)
             el = base.ct.elem
             assert el is not None
             off = _add(base.off, _mul(idx.t, el.size))
@@ -1098,7 +1323,18 @@ class Exec:
                 raise COutOfSubset("deref of non-pointer")
             return ("mem", p, p.ct.elem)
         if k == "MemberExpr":
-            base = self.lvalue(n["inner"][0])
+            if n.get("isArrow"):
+                p = self.eval(n["inner"][0])
+                if not (isinstance(p, PVal) and p.is_struct):
+                    raise COutOfSubset("-> on a non-structure pointer")
+                if p.region is None:
+                    self.prove("false", "safety", f"null-dereference:member@{self.where}")
+                    raise PathEnd()
+                base = ("struct", p.region, p.path, p.ct.elem)
+            else:
+                base = self.lvalue(n["inner"][0])
+            if base[0] == "struct":
+                return self.member_lvalue(base, n.get("name", ""))
             ct = self.e.types.parse(n["type"])
             return ("member", base, n["name"], ct)
         raise COutOfSubset(f"lvalue {k}")
@@ -1122,6 +1358,8 @@ class Exec:
             if not isinstance(u, UVal):
                 raise COutOfSubset("member of non-union")
             return self.union_read(u, lv[3])
+        if lv[0] == "structarr":
+            return PVal(CT("ptr", elem=lv[3].elem), lv[1], "0", lv[2], True)
         raise COutOfSubset("lvalue read")
 
     def write_lvalue(self, lv: typing.Any, v: typing.Any) -> None:
@@ -1156,17 +1394,23 @@ class Exec:
         if ck == "LValueToRValue":
             return self.read_lvalue(self.lvalue(sub))
         if ck == "ArrayToPointerDecay":
+            if sub["kind"] == "StringLiteral":
+                return self.string_literal(sub)
             lv = self.lvalue(sub)
+            if lv[0] == "structarr":
+                return PVal(CT("ptr", elem=lv[3].elem), lv[1], "0", lv[2], True)
             if lv[0] != "mem":
                 raise COutOfSubset("array decay")
             return PVal(CT("ptr", elem=lv[2].elem), lv[1].region, lv[1].off)
-        if ck == "FunctionToPointerDecay":
+        if ck in ("FunctionToPointerDecay", "BuiltinFnToFnPtr"):
             return ("function", sub["referencedDecl"]["name"])
         to = self.e.types.parse(n["type"])
         v = self.eval(sub)
         if ck in ("NoOp",):
             if isinstance(v, Val) and to.kind == "int":
                 return Val(to if (to.width == v.ct.width and to.signed == v.ct.signed) else v.ct, v.rep, v.t)
+            if isinstance(v, PVal) and to.kind == "ptr" and not v.is_struct:
+                return PVal(to, v.region, v.off)
             return v
         if ck == "IntegralCast":
             return self.convert(v, to, explicit=n["kind"] == "CStyleCastExpr")
@@ -1174,11 +1418,12 @@ class Exec:
             return self.from_cond(self.nonzero(v), to)
         if ck == "BitCast":
             if isinstance(v, PVal):
-                return PVal(to, v.region, v.off)
+                return PVal(to if not v.is_struct else v.ct, v.region, v.off, v.path, v.is_struct)
             raise COutOfSubset("bitcast")
         if ck == "NullToPointer":
             return PVal(to, None, "0")
         if ck == "PointerToIntegral":
+            self.need_addresses()
             if isinstance(v, PVal) and v.region is not None:
                 return Val(to, "I", _add(self.regions[v.region].base, v.off))  # type: ignore
             return Val(to, "I", "0")
@@ -1216,6 +1461,8 @@ class Exec:
         sub = n["inner"][0]
         if op == "&":
             lv = self.lvalue(sub)
+            if lv[0] == "struct":
+                return PVal(CT("ptr", elem=lv[3]), lv[1], "0", lv[2], True)
             if lv[0] == "mem":
                 return PVal(CT("ptr", elem=lv[2]), lv[1].region, lv[1].off)
             raise COutOfSubset("address of a register variable (pre-scan missed it)")
@@ -1250,12 +1497,14 @@ class Exec:
             return self.eval(n["inner"][1 if c == "true" else 2])
         if _pure(n["inner"][1]) and _pure(n["inner"][2]):
             # no side effects in either arm: evaluate both under their guard and merge (no path split)
+            at = len(self.pc)
             self.pc.append(c)
             a = self.eval(n["inner"][1])
-            self.pc.pop()
+            del self.pc[at]
+            at = len(self.pc)
             self.pc.append(Not(c))
             b = self.eval(n["inner"][2])
-            self.pc.pop()
+            del self.pc[at]
             if isinstance(a, Val) and isinstance(b, Val):
                 if a.rep == "I" or b.rep == "I":
                     x, y = self.to_int(a), self.to_int(b)
@@ -1321,6 +1570,17 @@ class Exec:
         assert ct is not None
         if op in ("+", "-", "*", "/", "%"):
             return self.arith(op, a, b, ct)
+        if op == "&" and (a.rep == "I" or b.rep == "I"):
+            # x & ~(2^k - 1)  and  x & (2^k - 1) on non-negative integers stay in the integer domain
+            for x_, m_ in ((a, b), (b, a)):
+                mk = lit_of(m_.t)
+                if mk is not None and x_.rep == "I" and not x_.ct.signed:
+                    mk %= 1 << ct.width
+                    low = (1 << ct.width) - mk
+                    if mk + 1 > 0 and (mk + 1) & mk == 0:
+                        return Val(ct, "I", _fold(app("mod", x_.t, str(mk + 1))))
+                    if low > 0 and low & (low - 1) == 0:
+                        return Val(ct, "I", _fold(app("*", _fold(app("div", x_.t, str(low))), str(low))))
         if op in ("&", "|", "^"):
             x, y = self.to_bv(a, ct.width), self.to_bv(b, ct.width)
             return Val(ct, "B", f"({ {'&': 'bvand', '|': 'bvor', '^': 'bvxor'}[op]} {x.t} {y.t})")
@@ -1329,6 +1589,10 @@ class Exec:
         raise COutOfSubset(f"binary {op}")
 
     def icompare(self, op: str, a: Val, b: Val) -> str:
+        if a.rep == "B" and b.rep == "I" and lit_of(b.t) is not None and lit_of(a.t) is None:
+            b = Val(a.ct, "B", bvlit(lit_of(b.t), a.ct.width))  # type: ignore
+        elif b.rep == "B" and a.rep == "I" and lit_of(a.t) is not None and lit_of(b.t) is None:
+            a = Val(b.ct, "B", bvlit(lit_of(a.t), b.ct.width))  # type: ignore
         if a.rep == "B" and b.rep == "B" and a.ct.width == b.ct.width:
             s = a.ct.signed
             sym = {"<": "bvslt" if s else "bvult", ">": "bvsgt" if s else "bvugt", "<=": "bvsle" if s else "bvule",
@@ -1455,6 +1719,7 @@ class Exec:
         if op in ("<", ">", "<=", ">=") and isinstance(a, PVal) and isinstance(b, PVal):
             # relational comparison of pointers into different objects is unspecified; nunavut uses it only inside
             # assertions, evaluated here over the symbolic addresses of the (non-overlapping) objects
+            self.need_addresses()
             x = _add(self.regions[a.region].base, a.off)  # type: ignore
             y = _add(self.regions[b.region].base, b.off)  # type: ignore
             return self.from_cond(app(op, x, y))
@@ -1498,6 +1763,13 @@ class Exec:
             rd = self.check_access(dst, cnt, "memset", True)
             rd.mem = MemsetMem(rd.mem, dst.off, cnt, val.t)
             return dst
+        if name in ("__builtin_isfinite", "isfinite", "__builtin_isnan", "isnan", "__builtin_isinf", "isinf", "__builtin_isinf_sign"):
+            v = args[0]
+            if not isinstance(v, FVal):
+                raise COutOfSubset(f"{name} of a non-float")
+            t = {"isfinite": And(Not(f"(fp.isNaN {v.t})"), Not(f"(fp.isInfinite {v.t})")), "isnan": f"(fp.isNaN {v.t})",
+                 "isinf": f"(fp.isInfinite {v.t})"}[name.replace("__builtin_", "").replace("_sign", "")]
+            return self.from_cond(t)
         if name not in self.e.contracts:
             raise COutOfSubset(f"call to {name}: no contract")
         c = self.e.contracts[name]
@@ -1541,6 +1813,47 @@ class Exec:
         for nm, t in post.get("extra", []):
             self.assume(t)
         return res
+
+
+_PURE_BUILTINS = ("__builtin_isfinite", "__builtin_isnan", "__builtin_isinf", "__builtin_isinf_sign", "isfinite", "isnan", "isinf")
+
+
+def _pure_cond(n: dict) -> bool:
+    k = n.get("kind")
+    if k == "CallExpr":
+        callee = n["inner"][0]
+        while callee.get("kind") in ("ImplicitCastExpr", "ParenExpr"):
+            callee = callee["inner"][0]
+        if (callee.get("referencedDecl") or {}).get("name") not in _PURE_BUILTINS:
+            return False
+        return all(_pure_cond(a) for a in n["inner"][1:])
+    if k in ("CompoundAssignOperator", "ConditionalOperator"):
+        return False
+    if k == "BinaryOperator" and n.get("opcode") in ("=", ",", "&&", "||"):
+        return False
+    if k == "UnaryOperator" and n.get("opcode") in ("++", "--", "*"):
+        return False
+    if k in ("ArraySubscriptExpr", "MemberExpr"):
+        return False  # memory reads carry bounds obligations: keep them on their own path
+    return all(_pure_cond(ch) for ch in n.get("inner", []))
+
+
+def _simple_block(n: dict) -> bool:
+    """only assignments of pure expressions to local (register) scalar variables, possibly under nested simple ifs"""
+    k = n.get("kind")
+    if k == "CompoundStmt":
+        return all(_simple_block(ch) for ch in n.get("inner", []))
+    if k == "NullStmt":
+        return True
+    if k == "IfStmt":
+        inner = n["inner"]
+        return _pure_cond(inner[0]) and all(_simple_block(x) for x in inner[1:])
+    if k == "BinaryOperator" and n.get("opcode") == "=":
+        lhs, rhs = n["inner"]
+        while lhs.get("kind") == "ParenExpr":
+            lhs = lhs["inner"][0]
+        return lhs.get("kind") == "DeclRefExpr" and _pure_cond(rhs)
+    return False
 
 
 def _pure(n: dict) -> bool:
@@ -1653,15 +1966,54 @@ class CEngine:
             elif d["kind"] == "TypedefDecl":
                 self.typedef_decl(d)
 
-    def record_decl(self, d: dict) -> None:
+    def record_decl(self, d: dict) -> str:
         fields = []
+        last_nested = None
         for f in d.get("inner", []):
-            if f["kind"] == "FieldDecl":
-                fields.append((f["name"], self.types.parse(f["type"])))
+            if f["kind"] == "RecordDecl":
+                last_nested = self.record_decl(f)
+            elif f["kind"] == "FieldDecl":
+                q = f["type"].get("qualType", "")
+                if ("unnamed" in q or "anonymous" in q) and last_nested is not None:
+                    ft = CT("record", name=last_nested)
+                    m = re.search(r"\[(\d+)\]$", q)
+                    if m:
+                        ft = CT("array", elem=ft, count=int(m.group(1)))
+                else:
+                    try:
+                        ft = self.types.parse(f["type"])
+                    except COutOfSubset:
+                        ft = CT("void")  # a type outside the subset (system headers): only an error if it is ever used
+                fields.append((f.get("name", ""), ft))
         name = d.get("name") or f"anon@{d['id']}"
-        self.types.records[name] = {"union": d.get("tagUsed") == "union", "fields": fields, "id": d["id"]}
+        rec = {"union": d.get("tagUsed") == "union", "fields": fields, "id": d["id"]}
+        self.types.records[name] = rec
+        self.types.records["id:" + d["id"]] = rec
         self._last_record = name
         self.types.last_record = name
+        return name
+
+    def load_full(self, root: dict, prefixes: typing.Tuple[str, ...]) -> None:
+        """Index a complete translation-unit AST: all records and typedefs, and the functions whose name starts with
+        one of `prefixes`."""
+        by_id: typing.Dict[str, str] = {}
+        for d in root.get("inner", []):
+            k = d.get("kind")
+            if k == "RecordDecl":
+                by_id[d["id"]] = self.record_decl(d)
+            elif k == "TypedefDecl":
+                tid = None
+                for ch in d.get("inner", []):
+                    tid = (ch.get("ownedTagDecl") or {}).get("id") or tid
+                    for g in ch.get("inner", []):
+                        tid = (g.get("decl") or {}).get("id") or tid
+                if tid and tid in by_id:
+                    self.types.records[d["name"]] = self.types.records[by_id[tid]]
+            elif k == "FunctionDecl" and any(d.get("name", "").startswith(p) for p in prefixes):
+                if any(x.get("kind") == "CompoundStmt" for x in d.get("inner", [])):
+                    self.functions[d["name"]] = d
+                else:
+                    self.functions.setdefault(d["name"], d)
 
     def typedef_decl(self, d: dict) -> None:
         # typedef union {...} Name;  -> alias of the record declared just before
@@ -1709,11 +2061,26 @@ class CEngine:
                 elif ct.kind == "float":
                     v = FVal(ct, ex.fresh(f"(_ BitVec {ct.width})", nm, model=True))
                 elif ct.kind == "ptr":
-                    ln = ex.fresh("Int", f"len.{nm}", model=True)
-                    ex.assume(And(app("<=", "0", ln), app("<", ln, str(2 ** 61))))
                     const = "const" in p["type"]["qualType"].split("*")[0]
-                    r = ex.new_region(nm, ln, writable=not const)
-                    v = PVal(ct, r.name, "0")
+                    if nm in c.null_params:
+                        v = PVal(ct, None, "0", (), ct.elem is not None and ct.elem.kind == "record")
+                    elif ct.elem is not None and ct.elem.kind == "record":
+                        root = ex.new_struct_root(nm, writable=not const)
+                        ex.param_roots.add(root)
+                        v = PVal(ct, root, "0", (), True)
+                    elif ct.elem is not None and ct.elem.kind == "int" and (ct.elem.width > 8 or nm in c.scalar_ptr_params):
+                        cell = None
+                        if ct.elem.width == 64 and not ct.elem.signed:
+                            iv = ex.fresh("Int", f"val.{nm}", model=True)
+                            ex.assume(And(app("<=", "0", iv), app("<", iv, TWO64)))
+                            cell = IntCellMem(iv)
+                        r = ex.new_region(nm, str(ct.elem.size), cell, writable=not const)
+                        v = PVal(ct, r.name, "0")
+                    else:
+                        ln = ex.fresh("Int", f"len.{nm}", model=True)
+                        ex.assume(And(app("<=", "0", ln), app("<", ln, str(2 ** 61))))
+                        r = ex.new_region(nm, ln, writable=not const)
+                        v = PVal(ct, r.name, "0")
                 else:
                     raise COutOfSubset(f"parameter type {ct}")
                 ex.vars[p["id"]] = v
@@ -1727,7 +2094,10 @@ class CEngine:
                     r = ex.new_region(p["name"], str(ct.size))
                     ex.vars[p["id"]] = ("region", r.name, ct)
                     ex.store(PVal(CT("ptr", elem=ct), r.name, "0"), ct, amap[p["name"]])
+            if c.setup is not None:
+                c.setup(ex, amap)
             cx = CallCx(ex, amap, dict(ex.entry_mems))
+            ex.cx = cx  # type: ignore
             for r in c.requires(cx):
                 ex.assume(r)
             try:
@@ -1747,15 +2117,27 @@ class CEngine:
                     ex.prove(Eq(result.bits, spec) if rep == "bits" else Eq(result.t, spec), "post", "result", "fp")
                 else:
                     ex.prove("false", "post", "result-missing")
-            for rid, r in ex.regions.items():
+            for rid, r in list(ex.regions.items()):
                 if rid not in ex.entry_mems:
                     continue  # locals
+                if rid in post.get("skip_frame", ()) or rid in post.get("mem_bytes", {}):
+                    continue
                 spec_mem = post.get("mem", {}).get(rid)
                 if spec_mem is None:
                     if r.mem is not ex.entry_mems[rid]:
                         ex.prove_mem_eq(r, ex.entry_mems[rid], "frame", f"{_short(rid)}-unchanged")
                 else:
                     ex.prove_mem_eq(r, spec_mem, "post", f"mem.{_short(rid)}")
+            for rid, (spec_mem, nbytes, rest_unchanged) in post.get("mem_bytes", {}).items():
+                r = ex.regions[rid]
+                for jb in range(nbytes):
+                    ex.prove(Eq(r.mem.read(str(jb)), spec_mem.read(str(jb))), "post", f"mem.{_short(rid)}[{jb}]")
+                if rest_unchanged:
+                    j = ex.fresh("Int", "j")
+                    saved = len(ex.pc)
+                    ex.pc.append(And(app("<=", str(nbytes), j), app("<", j, r.length)))
+                    ex.prove(Eq(r.mem.read(j), ex.entry_mems[rid].read(j)), "frame", f"{_short(rid)}-beyond-the-message-unchanged")
+                    del ex.pc[saved:]
             for nm, t in post.get("extra", []):
                 ex.prove(t, "post", nm)
             if callable(post.get("extra_fn")):
